@@ -1,5 +1,5 @@
 """Pool discipline rules P1..P16 (DESIGN.md 4.4).  Each function records obligations on ctx."""
-from core import (norm, L_call, L_variant, root_has, arms, assigns_to_return, const_of, CallSite,
+from core import (AbsPaths, norm, L_call, L_variant, root_has, arms, assigns_to_return, const_of, CallSite,
                   returned_comparison, closure_arg_of, sig)
 from mir import place_str, op_place, op_str
 
@@ -428,33 +428,36 @@ def P4(ctx, facts):
     ru = facts.unit(facts.method("client::conn::connection::HttpConnection", "PoolableConnection", "reuse"))
     for f in (cs, ru):
         ctx.touched(f)
-    _, a_cs = arms(cs, "InnerConnection")
-    _, a_ru = arms(ru, "InnerConnection")
-    if set(a_cs) != {"H1", "H2"} or set(a_ru) != {"H1", "H2"}:
-        return ctx.undecided("HttpConnection|arms", "could not split can_share/reuse into H1/H2 arms: %s %s" % (sorted(a_cs), sorted(a_ru)))
+    # decision table over the connection's variant (abstract evaluation; `match`, `matches!`, delegation to a helper of
+    # InnerConnection and `share().map(..)` are the same table)
+    cs = facts.unit(facts.method("client::conn::connection::HttpConnection", "PoolableConnection", "can_share"), expand=True)
+    ru = facts.unit(facts.method("client::conn::connection::HttpConnection", "PoolableConnection", "reuse"), expand=True)
+    adt = facts.adt("client::conn::connection::HttpConnection")
+    idx = [i for i, fl in enumerate(adt["variants"][0]["fields"]) if "InnerConnection<" in fl["ty"]]
+    if len(idx) != 1:
+        return ctx.missing("HttpConnection|inner", "HttpConnection has no single field of type InnerConnection")
+    clone = [(r"Clone.*::clone$", lambda site, vals: vals[0] if vals else None)]
     for v in ("H1", "H2"):
-        vals = []
-        for (k, b, s) in assigns_to_return(cs, a_cs[v]):
-            if k == "stmt" and s["r"]["k"] == "use":
-                vals.append(const_of(s["r"]["o"]))
-            else:
-                vals.append("?")
+        this = ("refval", ("variant", "HttpConnection", ((idx[0], ("variant", v, ((0, ("const", "SENDER_" + v)),))),)))
+        try:
+            o_cs = {x for (x, _) in AbsPaths(cs, oracles=clone).outcomes(state={1: this})}
+            o_ru = {x for (x, _) in AbsPaths(ru, oracles=clone).outcomes(state={1: this})}
+        except AbsPaths.Undecided as e:
+            ctx.undecided("HttpConnection|table|%s" % v, str(e))
+            continue
         want = "true" if v == "H2" else "false"
-        ctx.check(vals == [want], "HttpConnection::can_share|%s" % v, "can_share() is %s for %s" % (want, v),
-                  "can_share() yields %s for %s" % (vals, v), cs.where())
-        kinds = []
-        for (k, b, s) in assigns_to_return(ru, a_ru[v]):
-            if k == "stmt" and s["r"]["k"] == "agg":
-                kinds.append(s["r"].get("v"))
-            else:
-                kinds.append("?")
-        want = "Some" if v == "H2" else "None"
-        ctx.check(kinds == [want], "HttpConnection::reuse|%s" % v, "reuse() is %s for %s" % (want, v),
-                  "reuse() yields %s for %s" % (kinds, v), ru.where())
-    # H1 arm of reuse must not clone the sender
-    h1calls = [c for c in ru.calls() if c.bb in a_ru["H1"]]
-    ctx.check(not h1calls, "HttpConnection::reuse|H1-no-clone", "H1 arm of reuse() performs no call (no clone of the sender)",
-              "H1 arm of reuse() calls %s" % [norm(c.name) for c in h1calls])
+        ctx.check(o_cs == {("const", want)}, "HttpConnection::can_share|%s" % v, "can_share() is %s for %s" % (want, v),
+                  "can_share() yields %s for %s" % (sorted(map(str, o_cs)), v), cs.where())
+        if v == "H1":
+            ok = o_ru == {("variant", "None", ())}
+        else:
+            ok = len(o_ru) == 1
+            r = next(iter(o_ru)) if ok else None
+            inner = dict(dict(r[2]).get(0)[2]).get(idx[0]) if ok and r is not None and r[0] == "variant" and r[1] == "Some" and dict(r[2]).get(0) is not None and dict(r[2]).get(0)[0] == "variant" else None
+            # the second handle is an HTTP/2 connection made from (a clone of) this connection's own sender
+            ok = inner == ("variant", "H2", ((0, ("const", "SENDER_H2")),))
+        ctx.check(ok, "HttpConnection::reuse|%s" % v, "reuse() is %s for %s" % ("Some(handle on the same HTTP/2 sender)" if v == "H2" else "None", v),
+                  "reuse() yields %s for %s" % (sorted(map(str, o_ru)), v), ru.where())
 
 
 def C02_1(ctx, facts):
@@ -556,76 +559,10 @@ def P5(ctx, facts):
     """IdleConnections::pop yields an entry only if it is open and not expired; expiry = at < now - timeout."""
     pop = facts.unit(facts.fn("client::pool::idle::IdleConnections::pop"))
     ctx.touched(pop)
-    vpops = pop.calls("alloc::vec::Vec::pop", "std::vec::Vec::pop")
-    if not vpops:
-        return ctx.missing("anchor", "no Vec::pop in IdleConnections::pop")
-    # yield sites: Some(x) with x rooted in the popped entry
-    ys = []
-    for (b, i, s) in pop.aggregates("Option", "Some"):
-        rts = pop.roots(s["r"]["ops"][0])
-        if any(r.kind == "call" and r.site.is_("alloc::vec::Vec::pop", "std::vec::Vec::pop") for r in rts):
-            ys.append((b, s))
-    ctx.floor("IdleConnections::pop|yield-sites", len(ys), 1, "sites yielding a popped idle entry")
-    thr_ops = []
-    for (b, s) in ys:
-        ok, w = pop.guarded(b, L_call(pop, "client::pool::PoolableConnection::is_open", True,
-                                      recv_root=lambda rs: any(r.kind == "call" and r.site.is_("alloc::vec::Vec::pop", "std::vec::Vec::pop") for r in rs)))
-        ctx.check(ok, "IdleConnections::pop|yield-open", "an idle entry is yielded only on the edge entry.inner.is_open() == true",
-                  "an idle entry can be yielded without is_open() == true", pop.where(b), pop.path_desc(w))
-        found = []
-
-        def not_expired(lab):
-            if lab.kind != "bool" or lab.value is None:
-                return False
-            e = expiry_cond(facts, pop, lab.cond)
-            if e is None:
-                return False
-            older, thr = e
-            found.append((older, thr, lab))
-            # the edge must be the one on which `at < threshold` is false
-            return (lab.value is False) if older else (lab.value is True)
-
-        ok2, w2 = pop.guarded(b, not_expired)
-        if not found:
-            ctx.undecided("IdleConnections::pop|yield-fresh", "no expiry comparison of a recognised shape guards the yield site", pop.where(b))
-        else:
-            ctx.check(ok2, "IdleConnections::pop|yield-fresh", "an idle entry is yielded only on the not-expired edge of `entry.at < threshold`",
-                      "an idle entry can be yielded on the expired edge / without the expiry test (comparator orientation checked)",
-                      pop.where(b), pop.path_desc(w2))
-            thr_ops.extend(t for (_, t, _) in found)
-    # threshold provenance: now - timeout, timeout from the parameter, zero disables
-    seen_sub = seen_now = seen_param = False
-    filt_ok = None
-    for thr in thr_ops[:1]:
-        rts = pop.roots(thr)
-        seen_param = any(r.kind == "arg" and r.desc.startswith("idle_timeout") for r in rts)
-        clos = [r.key for r in rts if r.kind == "closure"]
-        bodies = [pop] + [facts.fns[k] for k in clos if k in facts.fns]
-        for f in bodies:
-            for c in f.calls("std::time::Instant::checked_sub", "std::time::Instant::sub", "core::ops::Sub::sub", "std::ops::Sub::sub"):
-                r0 = f.roots(c.args[0])
-                r1 = f.roots(c.args[1])
-                if any(r.kind == "call" and r.site.is_("std::time::Instant::now") for r in r0) and                         any(r.kind == "arg" for r in r1):
-                    seen_sub = seen_now = True
-        for c in pop.calls(*_opt("filter")):
-            if not any(r.kind == "call" and r.site.bb == c.bb for r in rts):
-                continue
-            ck = closure_arg_of(pop, c, 1)
-            if ck in facts.fns:
-                cmpx = returned_comparison(facts.fns[ck])
-                if cmpx:
-                    op, a, b2 = cmpx
-                    z = const_of(b2)
-                    filt_ok = op in ("Gt", "Ne") and z is not None and z.strip("_f64u32i ").rstrip("f64").startswith("0")
-                else:
-                    filt_ok = False
-    ctx.check(seen_param, "IdleConnections::pop|threshold-from-timeout", "the expiry threshold derives from the idle_timeout parameter",
-              "expiry threshold does not derive from idle_timeout")
-    ctx.check(seen_sub and seen_now, "IdleConnections::pop|threshold-now-minus-timeout", "threshold = Instant::now() - timeout",
-              "threshold is not computed as Instant::now() - timeout")
-    if filt_ok is not None:
-        ctx.check(filt_ok, "IdleConnections::pop|zero-disables-only", "the timeout filter keeps exactly the non-zero timeouts (`> 0`)",
-                  "the timeout filter does not have the shape `timeout > 0`: a non-zero timeout may be ignored")
+    # which entry is handed out: decision table over small idle lists x timeout configurations (idletable.py): only an open,
+    # unexpired entry, the specified one, and it leaves the list; zero / no timeout disables expiry
+    import idletable
+    idletable.table(ctx, facts)
     # callers / plumbing
     ppop = facts.unit(facts.fn("client::pool::PoolInner::pop"), expand=True)
     ctx.touched(ppop)
